@@ -27,6 +27,14 @@ def descs(ctx):
                                  S("ga", "gather", ["ex", "sz"], ["out"])], {"in": [L(range(1, 4))]}, ["out"], {"jobs"}),
            dflow_gen._d("par", [S("a", "exec", ["in"], ["o1"]), S("b", "exec", ["in"], ["o2"]), S("c", "exec", ["o1"], ["o3"])],
                         {"in": [dflow_gen.V(2)]}, ["o2", "o3"], {"jobs"})]
+    # multi-location deployment (shell-based remote, 3 locations): every job is allocated TWO locations
+    out.append(dict(dflow_gen._d("multi", [S("sc", "scatter", ["in"], ["el", "sz"]), S("ex", "exec", ["el"], ["ex"]),
+                                           S("ga", "gather", ["ex", "sz"], ["out"])], {"in": [L(range(1, 4))]}, ["out"], {"jobs", "multi-location"}),
+                    remote={"locs": ["n1", "n2", "n3"], "per_job": 2}))
+    # the binding pins the output directory; jobs land on different locations of one deployment
+    out.append(dict(dflow_gen._d("pinned", [S("sc", "scatter", ["in"], ["el", "sz"]), S("ex", "exec", ["el"], ["ex"]),
+                                            S("ga", "gather", ["ex", "sz"], ["out"])], {"in": [L(range(1, 5))]}, ["out"], {"jobs", "pinned-directory"}),
+                    remote={"locs": ["n1", "n2"], "per_job": 1, "pin_output": "/tmp/shared-out"}))
     return out
 
 
@@ -35,6 +43,7 @@ def to_trace(run):
     for e in run["events"]:
         if e["ev"] == "put" and e.get("k") == "job":
             tr.append({"job": e["job"], "dirs": e["dirs"], "locs": e.get("locs") or ["?"],
+                       "pinned": ["", (run["desc"].get("remote") or {}).get("pin_output") or "", ""],
                        "exists": e.get("exists") if e.get("exists") is not None else [True],
                        "registered": e.get("registered") if e.get("registered") is not None else [False],
                        "observe_error": e.get("observe_error", "")})
@@ -75,7 +84,10 @@ def run(ctx):
     for (d, sd, _), rr in zip(jobs, runs):
         ctx.require("harness_error" not in rr, "harness failure running %s: %s" % (d["name"], rr.get("harness_error")))
         ctx.require(not rr.get("error"), "workflow %s did not complete: %s" % (d["name"], rr.get("error")))
-        traces.append(to_trace(rr))
+        tr0 = to_trace(rr)
+        for e in tr0:       # job names are unique per run only: the batch derives its constants from all traces
+            e["job"] = "%d:%s" % (len(traces), e["job"])
+        traces.append(tr0)
     ctx.require(all(traces), "no job token observed")
     verdicts = trace.validate(ctx, "JobDirs", "Trace_JobDirs", "Trace_JobDirs.cfg", traces, timeout=900)
     njobs = 0
@@ -85,7 +97,7 @@ def run(ctx):
         judge(ctx, d, rr, tr, v)
     ctx.count("jobs_observed", njobs)
     ctx.sample({"workflow": ds[0]["name"], "trace": traces[0][:3]})
-    ctx.assumptions += ["random_name() yields fresh names (modelled as choice among unused names)", "local locations only (isdir observed through the local file system)"]
+    ctx.assumptions += ["random_name() yields fresh names (modelled as choice among unused names)", "existence is observed from outside the locations (local file system / the chroot root of each shell-based remote location)"]
 
 
 def replay(ctx, data):
